@@ -4,6 +4,7 @@ import (
 	"fmt"
 	"runtime"
 	"strings"
+	"sync/atomic"
 	"time"
 
 	"verif/harness/vdisk"
@@ -193,6 +194,14 @@ type Probe struct {
 	Props []string
 	Disk  uint64
 	Run   func(p *P)
+}
+
+func seqInts(a, b int) []int {
+	var l []int
+	for i := a; i <= b; i++ {
+		l = append(l, i)
+	}
+	return l
 }
 
 func raw(c *Call, b []byte) *Call { c.RawFh = b; c.Fh = Hex(b); return c }
@@ -662,6 +671,7 @@ func init() {
 		p.Trunc(g, 900*B)
 		p.Remove(p.Root, "g")
 		p.Remove(p.Root, "f")
+
 		if !p.S.Wedged {
 			p.S.WaitIdle()
 			p.T.Emit(TakeSnap(p.S, "run", true))
@@ -708,6 +718,90 @@ func init() {
 		p.Lookup(d, mk("\u00e9", 112))
 		p.Tail()
 	}})
+	Probes = append(Probes, Probe{"rmdir-with-entries-only-in-later-slots", []string{"C02", "C04", "C05"}, 0, func(p *P) {
+		// a directory that once had many entries and keeps only a few, at every position of its second and third block
+		// (slots 31..35, 63..66): it is not empty - RMDIR, REMOVE and RENAME of an empty directory onto it must be refused
+		for _, keep := range [][]int{{30}, {31}, {30, 31}, {29}, {32}, {62}, {63}, {61, 64}, {33}} {
+			d := p.Mkdir(p.Root, "d").RFh
+			for i := 0; i < 66; i++ {
+				p.Create(d, fmt.Sprintf("c%02d", i)) // entry i sits in slot i+2
+			}
+			kept := map[int]bool{}
+			for _, k := range keep {
+				kept[k] = true
+			}
+			for i := 0; i < 66; i++ {
+				if !kept[i] {
+					p.Remove(d, fmt.Sprintf("c%02d", i))
+				}
+			}
+			p.Rmdir(p.Root, "d")
+			p.Remove(p.Root, "d")
+			p.Mkdir(p.Root, "e")
+			p.Rename(p.Root, "e", p.Root, "d")
+			p.Lookup(p.Root, "d")
+			p.Enumerate(d, false, 4096, 4)
+			for _, k := range keep {
+				p.Remove(d, fmt.Sprintf("c%02d", k))
+			}
+			p.Rmdir(p.Root, "d")
+			p.Rmdir(p.Root, "e")
+			p.Lookup(p.Root, "d")
+			p.S.WaitIdle()
+			p.T.Emit(TakeSnap(p.S, "run", true))
+		}
+		p.Tail()
+	}})
+	Probes = append(Probes, Probe{"directory-number-reused-after-restart", []string{"C11", "C08", "C10"}, 0, func(p *P) {
+		// a removed directory's cached inode (with its name cache) is still in the inode cache when its number is handed
+		// out again - after a restart the allocator starts at the lowest free number - for a directory, a file, a symlink
+		for round, kind := range []string{"MKDIR", "CREATE", "SYMLINK", "MKDIR"} {
+			d := p.Mkdir(p.Root, "d").RFh
+			p.Create(d, "x")
+			if !p.Restart() {
+				return
+			}
+			p.Lookup(d, "x") // builds the name cache of d in this instance
+			p.Lookup(d, "nope")
+			p.Remove(d, "x")
+			if round == 3 {
+				p.Mkdir(p.Root, "e0")
+				p.Rename(p.Root, "e0", p.Root, "d") // removed by a RENAME over it
+			} else {
+				p.Rmdir(p.Root, "d")
+			}
+			var c *Call
+			switch kind {
+			case "MKDIR":
+				c = p.Mkdir(p.Root, "e")
+			case "CREATE":
+				c = p.Create(p.Root, "e")
+			default:
+				c = p.Symlink(p.Root, "e", "/t")
+			}
+			p.Getattr(d)
+			p.Lookup(d, ".")
+			if c.St == "OK" && c.HasFh {
+				p.Getattr(c.RFh)
+				if kind == "MKDIR" {
+					p.Create(c.RFh, "y")
+					p.Lookup(c.RFh, "y")
+					p.Lookup(c.RFh, "..")
+					p.Enumerate(c.RFh, true, 4096, 3)
+					p.Remove(c.RFh, "y")
+					p.Rmdir(p.Root, "e")
+				} else {
+					p.Remove(p.Root, "e")
+				}
+			}
+			if round == 3 {
+				p.Rmdir(p.Root, "d")
+			}
+			p.S.WaitIdle()
+			p.T.Emit(TakeSnap(p.S, "run", true))
+		}
+		p.Tail()
+	}})
 	Probes = append(Probes, Probe{"create-with-an-initial-size", []string{"C11", "C02", "C19"}, 0, func(p *P) {
 		// the size among CREATE's initial attributes may be ignored or applied, but never beyond what SETATTR accepts: a file
 		// whose size the block map cannot address crashes a later READ and keeps the thread that frees it busy for ever
@@ -735,6 +829,46 @@ func init() {
 		}
 		p.Tail()
 	}})
+	for _, nb := range append(seqInts(1, 32), 40, 48, 64) {
+		nb := nb
+		Probes = append(Probes, Probe{fmt.Sprintf("freeing-requests-behind-a-held-up-one-%d", nb), []string{"C06", "C05"}, 16000, func(p *P) {
+			// the background freeing of file z is held up for 0.7 s before its first transaction; meanwhile nb other files are
+			// cut (nb more requests for background freeing) and then z itself is removed - by a request that holds z's lock
+			// when it asks for background freeing again. However that is organised (a thread per request, a pool, a queue of
+			// some length), the request must not wait for room while the freeing in progress needs the lock it holds. One
+			// variant per number of requests in between, so that a bound of any size up to 32 (and 40, 48, 64) is met exactly.
+			const B = 4096
+			var once int32
+			Mon.Yield = func(ev string) {
+				if ev != "begin" || atomic.LoadInt32(&once) != 0 {
+					return
+				}
+				buf := make([]byte, 8192)
+				n := runtime.Stack(buf, false)
+				if strings.Contains(string(buf[:n]), "shrinker.") && !strings.Contains(string(buf[:n]), "NFSPROC3_") && atomic.CompareAndSwapInt32(&once, 0, 1) {
+					time.Sleep(700 * time.Millisecond)
+				}
+			}
+			defer func() { Mon.Yield = nil }()
+			var fhs []string
+			for i := 0; i <= nb; i++ {
+				h := p.Create(p.Root, fmt.Sprintf("z%d", i)).RFh
+				p.Trunc(h, 1200*B)
+				fhs = append(fhs, h)
+			}
+			p.Trunc(fhs[0], 600*B) // the freeing that is held up
+			for i := 1; i <= nb && !p.S.Wedged; i++ {
+				p.Trunc(fhs[i], 600*B)
+			}
+			p.Remove(p.Root, "z0")
+			for i := 1; i <= nb && !p.S.Wedged; i++ {
+				p.Remove(p.Root, fmt.Sprintf("z%d", i))
+			}
+			if !p.S.Wedged && p.Idle() {
+				p.T.Emit(TakeSnap(p.S, "run", true))
+			}
+		}})
+	}
 	Probes = append(Probes, Probe{"remove-while-truncation-is-in-progress", []string{"C05", "C12", "C04"}, 16000, func(p *P) {
 		const B = 4096
 		for round := 0; round < 3; round++ {
